@@ -1,6 +1,7 @@
 package harness
 
 import (
+	"encoding/binary"
 	"encoding/json"
 	"fmt"
 	"os"
@@ -60,6 +61,8 @@ type WorkerArgs struct {
 	MaxViol   int
 	KnownKeys map[string]bool                // open known findings: counted, never minimised, never end the batch
 	ExecWrap  func(p Prop, c *Case) *Outcome // engine-specific wrapper (E3 bubble); nil = p.Exec
+	Progress  string                         // file that always holds the index of the run in flight (post-mortem after a runtime fatal error)
+	GenOnly   int                            // >= 0: only generate that run's case, write it to Out and exit
 }
 
 var curExecStart int64 // unix nanos of the Exec in flight (watchdog)
@@ -127,6 +130,18 @@ func RunWorker(a WorkerArgs) int {
 	nontriv := map[uint64]struct{}{}
 	scheds := map[uint64]struct{}{}
 	propHash := sim.HashString(a.Prop)
+	if a.GenOnly >= 0 {
+		rng := sim.NewRng(a.Seed, propHash, uint64(a.GenOnly))
+		c := p.Gen(rng, a.Tier)
+		c.Prop, c.Engine, c.Seed, c.Run, c.Tier, c.Tree = a.Prop, p.Engine(), a.Seed, a.GenOnly, a.Tier, a.Tree
+		b, _ := json.MarshalIndent(c, "", " ")
+		_ = os.WriteFile(a.Out, b, 0o644)
+		return 0
+	}
+	var progress *os.File
+	if a.Progress != "" {
+		progress, _ = os.OpenFile(a.Progress, os.O_CREATE|os.O_RDWR, 0o644)
+	}
 
 	// witnesses of open known findings (worker 0 only)
 	if w, ok := p.(Witnesser); ok && a.Worker == 0 {
@@ -162,6 +177,11 @@ func RunWorker(a WorkerArgs) int {
 		rng := sim.NewRng(a.Seed, propHash, uint64(i))
 		c := p.Gen(rng, a.Tier)
 		c.Prop, c.Engine, c.Seed, c.Run, c.Tier, c.Tree = a.Prop, p.Engine(), a.Seed, i, a.Tier, a.Tree
+		if progress != nil {
+			var buf [8]byte
+			binary.LittleEndian.PutUint64(buf[:], uint64(i))
+			_, _ = progress.WriteAt(buf[:], 0)
+		}
 		out := safeExec(p, c, a.ExecWrap)
 		sum.Evaluations++
 		if out.Infra != "" {
